@@ -944,6 +944,17 @@ def _stops(g, r, n=None):
         if r.random() < 0.25:
             a["stop-opacity"] = r.choice(("0.5", "0.25", "0.8"))
         out.append(Node("stop", a))
+    if r.random() < 0.15:
+        # labelled stops as drawing tools write them: ids and other non-stop attributes
+        kind = r.choice(("id", "id", "id+data", "data"))
+        for st in out:
+            if "id" in kind:
+                st.attrs["id"] = g.new_id("stop")
+            if "data" in kind:
+                st.attrs["data-name"] = r.choice(("a", "b", "stop"))
+                if r.random() < 0.5:
+                    st.attrs["class"] = "st" + str(r.randint(0, 3))
+        g.f["grad_labelled_stops"] += 1
     return out
 
 
